@@ -5,7 +5,7 @@
   the bridge theorems need) and `s` (the form the driver executes): `execute_withBuiltins`. Hence the evaluated
   `schema_checks` (on `withBuiltins s`) and the theorems they feed speak about the responses the driver computes.
 -/
-import PyGqlModel.Props.C05_builtins
+import PyGqlModel.Lemmas.C05Builtins
 
 set_option linter.unusedSimpArgs false
 set_option linter.unusedVariables false
